@@ -493,6 +493,9 @@ func (env *SpecEnv) evalCall(e *SExpr) TV {
 	B := types.Typ[types.Bool]
 	if e.X.K == "id" {
 		name := e.X.Name
+		if tv, ok := env.streamBuiltin(name, e); ok {
+			return tv
+		}
 		switch name {
 		case "old":
 			if env.old == nil {
